@@ -66,6 +66,16 @@ STATEMENT_STATUS = {
     "alpha_statement": "full statement for styles A/a; proved FALSE on the pinned code: alpha_cex (28 -> 'ab', ISO 'bb'); "
                        "open finding alpha-repeat",
     "alpha_partial": "partial: values 1..26 only",
+    "roman_body_translated": "proved for every state: one pass of the TRANSLATED while body of format_int_roman = the hand "
+                             "model's step (IndexError included)",
+    "roman_translated": "proved for every integer: format_int_roman assembled from the translated assert/test/body/tail = hand model",
+    "roman_translated_correct": "proved for all 0 < n < 4000: the translated code writes the subtractive-notation numeral",
+    "roman_translated_outside": "proved: the translated assert raises outside 0 < n < 4000",
+    "alpha_body_translated": "proved for every positive value and partial result: one pass of the TRANSLATED while body of "
+                             "format_int_alpha (never IndexError)",
+    "alpha_translated": "proved for every integer: format_int_alpha assembled from the translated pieces = hand model",
+    "alpha_translated_bijective": "proved for every n > 0 about the translated code: numeral read in bijective base 26 is n",
+    "alpha_translated_cex": "proved: the translated code maps 28 to 'ab' (open finding alpha-repeat)",
     "alpha_fuel_suffices": "proved (the loop bound of the letters model is never hit)",
     "numtree_flatten": "proved for every tree shape (mutual induction)",
     "numtree_values": "proved: values = in-order flattening when keys ascend",
@@ -1798,6 +1808,9 @@ def run_formatters(ctx: C.Ctx, batch: Batch) -> None:
         ctx.case(("roman", n), True, branch="roman")
         batch.add("roman %d" % n, "roman", {"kind": "roman", "value": n}, cps(got) if not got.startswith("E:") else got,
                   "model")
+        batch.add("gen.roman %d" % n, "gen.roman", {"kind": "roman", "value": n},
+                  cps(got) if not got.startswith("E:") else got, "model")
+        ctx.branch("translated:format_int_roman")
         batch.add("spec.roman %d" % n, "spec.roman", {"kind": "roman", "value": n}, cps(exp), "spec")
         if got != exp and bad is None:
             bad = (n, exp, got)
@@ -1811,6 +1824,7 @@ def run_formatters(ctx: C.Ctx, batch: Batch) -> None:
             got = "E:" + type(e).__name__
         ctx.branch("roman:outside:" + got[:20])
         batch.add("roman %d" % n, "roman", {"kind": "roman", "value": n}, got, "model")
+        batch.add("gen.roman %d" % n, "gen.roman", {"kind": "roman", "value": n}, got, "model")
     # alpha
     top = ctx.n(3000, 60000)
     first_bad = None
@@ -1825,6 +1839,10 @@ def run_formatters(ctx: C.Ctx, batch: Batch) -> None:
         ctx.case(("alpha", n), True, branch="alpha<=26" if n <= 26 else "alpha>26")
         batch.add("alpha %d" % n, "alpha", {"kind": "alpha", "value": n}, cps(got) if not got.startswith("E:") else got,
                   "model")
+        if n < 4000 or n % 7 == 0:      # translated code (Gen/LabelCode.lean): pass budget = value, keep the big ones few
+            batch.add("gen.alpha %d" % n, "gen.alpha", {"kind": "alpha", "value": n},
+                      cps(got) if not got.startswith("E:") else got, "model")
+            ctx.branch("translated:format_int_alpha" + (":assert" if got.startswith("E:") else ""))
         if exp is not None and n < 5000:
             batch.add("spec.alpha %d" % n, "spec.alpha", {"kind": "alpha", "value": n}, cps(exp), "spec")
         if exp is not None and got != exp:
